@@ -1161,3 +1161,189 @@ Proof.
            | |- context [match ?x with _ => _ end] => destruct x
            end; cbn [fst]; try exact G; apply get_obj_app; exact G.
 Qed.
+
+(* ================= 9. Mutable of a oneof message member; list and map element laws ======================= *)
+Section More.
+  Variable sch : schema.
+  Hypothesis Hwf : wf sch = true.
+  Variables (h : heap) (id : nat) (ob : obj).
+  Hypothesis Hinv : heap_ok sch h.
+  Hypothesis Hob : get_obj h id = Some ob.
+  Let mid := o_mid ob.
+  Let recv := PMsg mid (Some id).
+
+  Lemma member_fresh_after : forall f fd j m md,
+    field_of sch mid f = Some fd -> f_shape fd = Member j -> f_ty fd = TMsg m -> get_msg sch mid = Some md ->
+    let q := length h in
+    let ob1 := set_oneof ob j (Some (f, EPtr (Some q))) in
+    let h1 := hset (h ++ [HObj (new_obj sch m)]) id (HObj ob1) in
+    step sch h1 (OHas recv f) = (h1, PBool true) /\
+    step sch h1 (OGet recv f) = (h1, PMsg m (Some q)) /\
+    step sch h1 (OWhichOneof recv j) = (h1, PField (Some f)) /\
+    step sch h1 (OMutable recv f) = (h1, PMsg m (Some q)) /\
+    (forall f2 fd2, field_of sch mid f2 = Some fd2 -> f_shape fd2 = Member j -> f2 <> f ->
+       step sch h1 (OHas recv f2) = (h1, PBool false)).
+  Proof.
+    intros f fd j m md F S T M q ob1 h1.
+    pose proof (Hinv _ _ Hob) as K.
+    assert (L : j < length (o_oneofs ob)) by (eapply ok_oneof_lt; eauto).
+    assert (Lm : j < m_oneofs md).
+    { unfold obj_ok in K. fold mid in K. rewrite M in K. destruct K as [_ K]. lia. }
+    assert (Hob' : get_obj (h ++ [HObj (new_obj sch m)]) id = Some ob) by (apply get_obj_app; exact Hob).
+    assert (N1 : nth j (o_oneofs ob1) None = Some (f, EPtr (Some q))).
+    { subst ob1. cbn [set_oneof o_oneofs]. apply nth_set_nth_eq; exact L. }
+    destruct (after_write sch _ mid id ob Hob' ob1 eq_refl) as [A [B _]]. fold h1 in A, B. fold recv in A, B.
+    destruct (A f fd F) as [A1 A2]. rewrite A1, A2, (B j md M Lm). unfold has_field, get_field. rewrite S, N1, Nat.eqb_refl, T.
+    cbn [elem_to_pval]. repeat (split; [reflexivity|]). split.
+    - assert (I : id < length (h ++ [HObj (new_obj sch m)])) by (eapply get_obj_lt; eauto).
+      assert (G1 : get_obj h1 id = Some ob1) by (apply get_obj_hset_eq; exact I).
+      assert (R1 : recv_obj sch h1 mid (Some id) = Some ob1) by (apply recv_obj_valid; [exact G1|reflexivity]).
+      subst recv. cbn [step]. rewrite F, R1, S, T, N1, Nat.eqb_refl. reflexivity.
+    - intros f2 fd2 F2 S2 Ne. destruct (A f2 fd2 F2) as [C1 _]. rewrite C1. unfold has_field. rewrite S2, N1.
+      assert (E : Nat.eqb f f2 = false) by (apply Nat.eqb_neq; congruence). rewrite E. reflexivity.
+  Qed.
+
+  (* Mutable of a message member: returns the stored message when this member is the one set (and holds a message),
+     otherwise stores a fresh one; afterwards this member is the one set, the others are not, and Mutable again
+     returns the same message *)
+  Theorem mutable_member_is_stable : forall f fd j m md,
+    field_of sch mid f = Some fd -> f_shape fd = Member j -> f_ty fd = TMsg m -> get_msg sch mid = Some md ->
+    exists h1 q, step sch h (OMutable recv f) = (h1, PMsg m (Some q)) /\
+                 (forall q0, step sch h (OHas recv f) = (h, PBool true) -> step sch h (OGet recv f) = (h, PMsg m (Some q0)) ->
+                             q = q0 /\ h1 = h) /\
+                 step sch h1 (OHas recv f) = (h1, PBool true) /\
+                 step sch h1 (OGet recv f) = (h1, PMsg m (Some q)) /\
+                 step sch h1 (OWhichOneof recv j) = (h1, PField (Some f)) /\
+                 step sch h1 (OMutable recv f) = (h1, PMsg m (Some q)) /\
+                 (forall f2 fd2, field_of sch mid f2 = Some fd2 -> f_shape fd2 = Member j -> f2 <> f ->
+                    step sch h1 (OHas recv f2) = (h1, PBool false)).
+  Proof.
+    intros f fd j m md F S T M.
+    pose proof (Hinv _ _ Hob) as K.
+    assert (L : j < length (o_oneofs ob)) by (eapply ok_oneof_lt; eauto).
+    assert (Lm : j < m_oneofs md).
+    { unfold obj_ok in K. fold mid in K. rewrite M in K. destruct K as [_ K]. lia. }
+    assert (R : recv_obj sch h mid (Some id) = Some ob) by (apply recv_obj_valid; auto).
+    destruct (reads_now sch h mid id ob Hob eq_refl) as [A [B _]]. fold recv in A, B.
+    destruct (A f fd F) as [A1 A2].
+    pose proof (member_fresh_after f fd j m md F S T M) as Fr. cbv zeta in Fr.
+    (* when a fresh message is stored *)
+    assert (Fresh : step sch h (OMutable recv f) =
+                    (hset (h ++ [HObj (new_obj sch m)]) id (HObj (set_oneof ob j (Some (f, EPtr (Some (length h)))))), PMsg m (Some (length h))) ->
+                    (forall q0, get_field ob (Some id) f fd <> PMsg m (Some q0) \/ has_field ob f fd = false) ->
+                    exists h1 q, step sch h (OMutable recv f) = (h1, PMsg m (Some q)) /\
+                 (forall q0, step sch h (OHas recv f) = (h, PBool true) -> step sch h (OGet recv f) = (h, PMsg m (Some q0)) ->
+                             q = q0 /\ h1 = h) /\
+                 step sch h1 (OHas recv f) = (h1, PBool true) /\
+                 step sch h1 (OGet recv f) = (h1, PMsg m (Some q)) /\
+                 step sch h1 (OWhichOneof recv j) = (h1, PField (Some f)) /\
+                 step sch h1 (OMutable recv f) = (h1, PMsg m (Some q)) /\
+                 (forall f2 fd2, field_of sch mid f2 = Some fd2 -> f_shape fd2 = Member j -> f2 <> f ->
+                    step sch h1 (OHas recv f2) = (h1, PBool false))).
+    { intros St No. eexists. eexists. split; [exact St|]. split; [|exact Fr].
+      intros q0 H1 H2. rewrite A1 in H1. rewrite A2 in H2. exfalso. destruct (No q0) as [X|X].
+      - apply X. inversion H2; reflexivity.
+      - inversion H1. congruence. }
+    destruct (nth j (o_oneofs ob) None) as [[f' e]|] eqn:N.
+    2:{ apply Fresh.
+        - subst recv. cbn [step]. rewrite F, R, S, T, N. reflexivity.
+        - intros q0. right. unfold has_field. rewrite S, N. reflexivity. }
+    destruct (Nat.eqb f' f) eqn:Ef.
+    - apply Nat.eqb_eq in Ef. subst f'. destruct e as [v|[q0|]].
+      + apply Fresh.
+        * subst recv. cbn [step]. rewrite F, R, S, T, N. reflexivity.
+        * intros q0. left. unfold get_field. rewrite S, N, Nat.eqb_refl, T. cbn [elem_to_pval]. discriminate.
+      + (* the member is set and holds q0: returned as is *)
+        exists h, q0.
+        assert (St : step sch h (OMutable recv f) = (h, PMsg m (Some q0))).
+        { subst recv. cbn [step]. rewrite F, R, S, T, N, Nat.eqb_refl. reflexivity. }
+        split; [exact St|]. split.
+        { intros q1 _ H2. rewrite A2 in H2. unfold get_field in H2. rewrite S, N, Nat.eqb_refl, T in H2. cbn [elem_to_pval] in H2.
+          inversion H2. auto. }
+        rewrite A1, A2, (B j md M Lm). unfold has_field, get_field. rewrite S, N, Nat.eqb_refl, T. cbn [elem_to_pval].
+        repeat (split; [reflexivity|]). split; [exact St|].
+        intros f2 fd2 F2 S2 Ne. destruct (A f2 fd2 F2) as [C1 _]. rewrite C1. unfold has_field. rewrite S2, N.
+        assert (E : Nat.eqb f f2 = false) by (apply Nat.eqb_neq; congruence). rewrite E. reflexivity.
+      + apply Fresh.
+        * subst recv. cbn [step]. rewrite F, R, S, T, N, Nat.eqb_refl. reflexivity.
+        * intros q0. left. unfold get_field. rewrite S, N, Nat.eqb_refl, T. cbn [elem_to_pval]. discriminate.
+    - apply Fresh.
+      + subst recv. cbn [step]. rewrite F, R, S, T, N, Ef. destruct e; reflexivity.
+      + intros q0. right. unfold has_field. rewrite S, N, Ef. reflexivity.
+  Qed.
+End More.
+
+(* ================= 10. list elements: Set and Truncate through any valid view =============================== *)
+Section ListLaws.
+  Variable sch : schema.
+
+  Lemma read_write_list h r l l' : read_list h r = Some l -> read_list (write_list h r l') r = Some l'.
+  Proof.
+    destruct r as [o f|v|]; cbn [read_list write_list]; [| |discriminate].
+    - destruct (get_obj h o) as [ob|] eqn:G; [|discriminate].
+      destruct (nth_error (o_cells ob) f) as [c|] eqn:C; [|discriminate]. intros _.
+      rewrite get_obj_hset_eq by (eapply get_obj_lt; eauto). cbn [set_cell o_cells].
+      rewrite nth_error_set_nth_eq by (eapply nth_error_Some_lt; eauto). reflexivity.
+    - unfold hget, hset. destruct (nth_error h v) as [x|] eqn:E; [|discriminate]. intros _.
+      rewrite nth_error_set_nth_eq by (eapply nth_error_Some_lt; eauto). reflexivity.
+  Qed.
+
+  Lemma nth_set_nth_other {A} (l : list A) i j x d : i <> j -> nth j (set_nth l i x) d = nth j l d.
+  Proof. apply nth_set_nth_neq. Qed.
+
+  Lemma in_bounds_spec i n : in_bounds i n = true <-> (0 <= i < Z.of_nat n)%Z.
+  Proof.
+    unfold in_bounds. rewrite Bool.andb_true_iff, Z.leb_le, Z.ltb_lt. tauto.
+  Qed.
+
+  (* List.Set(i, x) in range: the length is unchanged, Get(i) returns x, every other element is unchanged;
+     out of range: panic, nothing changes *)
+  Theorem list_set_get : forall h t r l i x e,
+    read_list h r = Some l -> pval_to_elem t x = Some e ->
+    (in_bounds i (olen l) = true ->
+     exists h', step sch h (OLSet (PList t r) i x) = (h', PUnit) /\
+                step sch h' (OLLen (PList t r)) = (h', PScalar (VInt (Z.of_nat (olen l)))) /\
+                step sch h' (OLGet (PList t r) i) = (h', x) /\
+                (forall i', i' <> i -> snd (step sch h' (OLGet (PList t r) i')) = snd (step sch h (OLGet (PList t r) i')))) /\
+    (in_bounds i (olen l) = false -> step sch h (OLSet (PList t r) i x) = (h, PPanic)).
+  Proof.
+    intros h t r l i x e R P. split; intro B.
+    - pose proof (proj1 (in_bounds_spec _ _) B) as Bz.
+      assert (Li : Z.to_nat i < length (olist l)).
+      { replace (length (olist l)) with (olen l) by (destruct l; reflexivity). lia. }
+      eexists. split; [cbn [step]; rewrite R, P, B; reflexivity|].
+      pose proof (read_write_list h r l (Some (set_nth (olist l) (Z.to_nat i) e)) R) as R'.
+      assert (Len : olen (Some (set_nth (olist l) (Z.to_nat i) e)) = olen l).
+      { cbn [olen]. rewrite set_nth_length. destruct l; reflexivity. }
+      cbn [step]. rewrite R', Len, B. cbn [olist]. rewrite nth_set_nth_eq by exact Li. rewrite (elem_roundtrip _ _ _ P).
+      split; [reflexivity|]. split; [reflexivity|].
+      intros i' Ne. rewrite R. destruct (in_bounds i' (olen l)) eqn:B'; [|reflexivity]. cbn [snd].
+      pose proof (proj1 (in_bounds_spec _ _) B') as Bz'.
+      rewrite nth_set_nth_neq by lia. reflexivity.
+    - cbn [step]. rewrite R, P, B. reflexivity.
+  Qed.
+
+  (* List.Truncate(n), 0 <= n <= Len: the length becomes n and the first n elements are unchanged *)
+  Theorem list_truncate : forall h t r l n,
+    read_list h r = Some l -> (0 <= n <= Z.of_nat (olen l))%Z ->
+    exists h', step sch h (OLTruncate (PList t r) n) = (h', PUnit) /\
+               step sch h' (OLLen (PList t r)) = (h', PScalar (VInt n)) /\
+               (forall i, (0 <= i < n)%Z -> snd (step sch h' (OLGet (PList t r) i)) = snd (step sch h (OLGet (PList t r) i))).
+  Proof.
+    intros h t r l n R B.
+    assert (Bb : ((0 <=? n) && (n <=? Z.of_nat (olen l)))%Z = true).
+    { apply andb_true_intro. split; [apply Z.leb_le|apply Z.leb_le]; lia. }
+    eexists. split; [cbn [step]; rewrite R, Bb; reflexivity|].
+    set (l' := match l with None => None | Some x => Some (firstn (Z.to_nat n) x) end).
+    pose proof (read_write_list h r l l' R) as R'.
+    assert (Len : olen l' = Z.to_nat n).
+    { subst l'. destruct l as [x|]; cbn [olen] in *; [rewrite firstn_length; lia|lia]. }
+    cbn [step]. rewrite R', Len. rewrite Z2Nat.id by lia. split; [reflexivity|].
+    intros i Bi. rewrite R.
+    assert (B1 : in_bounds i (Z.to_nat n) = true) by (apply in_bounds_spec; lia).
+    assert (B2 : in_bounds i (olen l) = true) by (apply in_bounds_spec; lia).
+    rewrite B1, B2. cbn [snd]. f_equal. subst l'. destruct l as [x|]; cbn [olist]; [|reflexivity].
+    rewrite <- (firstn_skipn (Z.to_nat n) x) at 2. rewrite app_nth1; [reflexivity|].
+    rewrite firstn_length. cbn [olen] in *. lia.
+  Qed.
+End ListLaws.
